@@ -24,6 +24,8 @@ type Clause struct {
 
 type LoopContract struct {
 	Invariants []Clause
+	Entry      []Clause // must hold when the loop is entered (not inductive)
+	Step       []Clause // relation between an iteration's start (plain names) and its end (next(e)), on every back edge
 	Decreases  *Clause
 }
 
@@ -343,6 +345,10 @@ func (cs *Contracts) funcClause(cur *FuncContract, path string, ln int, word, re
 		switch parts[1] {
 		case "invariant":
 			lc.Invariants = append(lc.Invariants, c)
+		case "entry":
+			lc.Entry = append(lc.Entry, c)
+		case "step":
+			lc.Step = append(lc.Step, c)
 		case "decreases":
 			lc.Decreases = &c
 		default:
